@@ -143,13 +143,16 @@ SPEC = {
                  "C05_source_fresh_objects", "C05_source_flushkv", "C05_source_flushkv_forwarders",
                  "C05_flushkv_calls", "C05_closed_answer_means_no_effect", "C05_debug_callback", "C05_source_flushkv_realm", "C05_source_debug",
                  "C05_skeleton_flushkv_mutators", "C05_skeleton_flushkv_forwarders", "C05_skeleton_debug",
+                 "C05_compile_is_assembled", "C05_compile_is_assembled_commit", "C05_compile_is_assembled_wrappers",
                  "C05_lockset_guard_table", "C05_lockset_mapdb", "C05_lockset_access_sites", "C05_lockset_views_immutable",
                  "C05_lockset_wrappers_stateless", "C05_lockset_words_cover", "C05_lockset_sound", "C05_lockset_mapdb_all_paths"],
     "trusted_base": [
-        "hand-written protocol model Hive/Model/KVConc.lean of kvstore/mapdb's locking (closed-flag load, view RWMutex, map RWMutex, "
+        "protocol model Hive/Model/KVConc.lean of kvstore/mapdb's locking (closed-flag load, view RWMutex, map RWMutex, "
         "batch Mutex, one atomic access per map primitive); tied to the working tree by (i) the regenerated synchronisation "
-        "skeletons (C05_skeleton_* are proof obligations against Hive/Gen/C05_Skel.lean, regenerated on every run) and (ii) "
-        "recorded concurrent histories of the real code decided by the Lean checker",
+        "skeletons (C05_skeleton_* are proof obligations against Hive/Gen/C05_Skel.lean / C05_WrapSkel.lean, regenerated on every run), "
+        "(ii) C05_compile_is_assembled*: compile(op) IS what the token interpreter Hive/Model/KVAsm.lean makes of those skeletons - "
+        "hand-written and trusted is only the interpreter's reading of the tokens (and that a primitive's critical section is one atomic "
+        "access of the model) - and (iii) recorded concurrent histories of the real code decided by the Lean checker",
         "semantics of sync.RWMutex (writer preference: a pending Lock blocks new RLocks), sync.Mutex and atomic.Bool as written "
         "in the model; Go's memory model (lock = happens-before) is assumed; data-race freedom of the real code: lockset obligations "
         "(C05_lockset_*: go/ast extractor harness/c05/lockset is trusted, owner types resolved syntactically, unresolved selectors refused) "
@@ -201,6 +204,9 @@ SPEC = {
                 "wrapper, i.e. wider than the model's - is linearizable too (C05_recorded_wrapped_history_linearizable); "
                 "tie of the wrappers: call skeletons of every wrapper method and the complete pinned source of flushkv and debug "
                 "(C05_skeleton_flushkv_*, C05_skeleton_debug, C05_source_flushkv*, C05_source_debug); "
+                "the instruction sequences of the model are DERIVED from the regenerated skeletons: an interpreter of the token language (Hive/Model/KVAsm.lean) "
+                "turns the skeleton of every mapdb method + the call's access into exactly compile(op), Commit for all write lists, and the wrapper "
+                "skeletons into the code blocks of fset/.../fcommit and [callback, op] (C05_compile_is_assembled, _commit, _wrappers); "
                 "lockset tie for data-race freedom: for every function of mapdb/flushkv/debug the regenerated list of lock operations, control "
                 "structure and struct-field accesses is accepted by an analysis proved sound over ALL paths (C05_lockset_sound, C05_lockset_mapdb, "
                 "C05_lockset_mapdb_all_paths: every access to a Go map under the owner's mutex, writes exclusively, no escape, no lock leak; "
